@@ -1,4 +1,4 @@
-import ChfVerif.Lemmas.ChargingStep
+import ChfVerif.Lemmas.ChargingOutage
 /-
   C01 — credit is conserved.
 
@@ -8,6 +8,13 @@ import ChfVerif.Lemmas.ChargingStep
 
   The property's quantifier ("rating and account servers reachable, products fit the Unsigned32
   AVPs, tariff constant") is the decidable predicate `opOKb` / `runOKb`, evaluated along the run.
+
+  Across outages (the servers' reachability is part of the state, `Ev.reach` toggles it) the identity
+  generalises: every operation moves balance + reservation by  + credited − *booked*  (`accountedOp`, the
+  independent statement of what the error paths book: reserve mode books the usage whether or not the
+  account server answers, at unit cost 1 when the rating server is unreachable; debit mode books nothing
+  unless both answer) — `C01_outage_step`, `C01_outage`; no operation ever creates credit
+  (`C01_outage_no_credit_created`); with both servers reachable booked = rated (`C01_booked_eq_rated`).
 -/
 namespace Chf.Props.C01
 open Chf Chf.Charging
@@ -26,8 +33,10 @@ theorem C01_step (guard : SplitGuard) (s : State) (op : Op) (hok : opOKb s op = 
   cases hc : chargedUsages s op with
   | some x =>
     obtain ⟨supi', trigs, groups, us⟩ := x
-    simp only [hc] at hok
+    simp only [hc, Bool.and_eq_true] at hok
+    obtain ⟨⟨hau, hru⟩, hok⟩ := hok
     obtain ⟨ha, hg, hgo, hgs⟩ := charged_step (guard := guard) hc
+    simp only [seenAccts, seenTariffs, acctsAfter, hau, hru, if_true] at ha hg
     obtain ⟨m, f⟩ := creditControl_money s.tariffs supi' trigs rg hrg us s.accts groups hok
     rw [creditedOp_charged hc]
     unfold ratedOp
@@ -126,5 +135,217 @@ theorem C01_refund_exact {e : Env} {supi : Bytes} {u : Usage} {st : RgState} {b 
   obtain ⟨c1, c2, _, _⟩ := debit_char ok
   rw [c1, debitSpec_money, c2]
   exact ⟨rfl, rfl⟩
+
+/-! ### only ONLINE_CHARGING containers are rated -/
+
+/-- containers whose quota-management indicator is absent, OFFLINE_CHARGING or QUOTA_MANAGEMENT_SUSPENDED add
+    nothing to the usage that is rated, wherever they sit among online containers -/
+theorem C01_only_online_counted (cs : List Container) : totalUsed cs = totalUsed (cs.filter isOnline) := by
+  induction cs with
+  | nil => rfl
+  | cons c r ih =>
+    by_cases h : isOnline c = true
+    · simp only [List.filter_cons, h, if_true, totalUsed, ih]
+    · simp only [List.filter_cons, h, Bool.false_eq_true, if_false, totalUsed, ih]
+
+theorem C01_only_online_rated (tariffs : List Rating.Tariff) (supi : Bytes) (u : Usage) :
+    ratedUsage tariffs supi u = ratedUsage tariffs supi { u with cs := u.cs.filter isOnline } := by
+  have ha : anyOnline (u.cs.filter isOnline) = anyOnline u.cs := by
+    unfold anyOnline
+    induction u.cs with
+    | nil => rfl
+    | cons c r ih =>
+      by_cases h : isOnline c = true
+      · simp [List.filter_cons, h]
+      · simp only [List.filter_cons, h, Bool.false_eq_true, if_false, List.any_cons, Bool.false_or, ih]
+  unfold ratedUsage
+  simp only [ha, ← C01_only_online_counted]
+
+/-! ### across outages -/
+
+/-- an operation that does not reach credit control moves the money of (supi, rg) by exactly the credit -/
+theorem C01_uncharged (guard : SplitGuard) (s : State) (op : Op) (hc : chargedUsages s op = none)
+    (supi : Bytes) (rg : Int) :
+    total (step guard s op).1 supi rg = (total s supi rg).map (fun m => m + creditedOp s op supi rg) := by
+  obtain ⟨hres, hbal⟩ := uncharged_step (guard := guard) hc
+  by_cases hcr : ∃ amt, op = .credit supi (u32 rg) amt
+  · obtain ⟨amt, hop⟩ := hcr
+    subst hop
+    unfold total moneyOf creditedOp
+    simp only [and_self, if_true]
+    rw [hres]
+    simp only [step, creditAcct]
+    unfold balOf
+    cases hf : Abmf.find s.accts supi (u32 rg) with
+    | none => simp [hf]
+    | some q =>
+      simp only
+      cases hp : q.parse with
+      | none => simp [hf, hp]
+      | some v =>
+        simp only [Abmf.find_put_same _ hf, Abmf.Quota.parse, Option.map_some, Option.some.injEq]
+        omega
+  · have hc0 : creditedOp s op supi rg = 0 := by
+      unfold creditedOp
+      cases op with
+      | credit a b c =>
+        simp only
+        by_cases hab : a = supi ∧ b = u32 rg
+        · exact absurd ⟨c, by rw [hab.1, hab.2]⟩ hcr
+        · simp [hab]
+      | _ => rfl
+    rw [hc0]
+    have : total (step guard s op).1 supi rg = total s supi rg :=
+      total_congr (hbal _ _ (fun a b c hop hab => hcr ⟨c, by rw [hop, hab.1, hab.2]⟩)) (hres _ _)
+    rw [this]
+    cases total s supi rg with
+    | none => rfl
+    | some v => simp only [Option.map_some, Option.some.injEq]; omega
+
+/-- One operation, whatever can be reached: the (balance + reservation) of every subscriber and rating group
+    moves by exactly the money credited minus the money the operation booked. -/
+theorem C01_outage_step (guard : SplitGuard) (s : State) (op : Op) (hok : opOKx s op = true)
+    (supi : Bytes) (rg : Int) (hrg : int32 rg) :
+    total (step guard s op).1 supi rg =
+      (total s supi rg).map (fun m => m + creditedOp s op supi rg - accountedOp s op supi rg) := by
+  unfold opOKx at hok
+  cases hc : chargedUsages s op with
+  | some x =>
+    obtain ⟨supi', trigs, groups, us⟩ := x
+    simp only [hc] at hok
+    obtain ⟨ha, hg, hgo, hgs⟩ := charged_step (guard := guard) hc
+    simp only [seenAccts, seenTariffs, acctsAfter] at ha hg
+    obtain ⟨m, f⟩ := creditControl_money_x s.abmfUp s.rfUp s.tariffs supi' trigs rg hrg us s.accts groups hok
+    rw [creditedOp_charged hc]
+    unfold accountedOp
+    simp only [hc]
+    by_cases hs : supi' = supi
+    · subst hs
+      simp only [if_true]
+      unfold total
+      rw [ha, hg, m, hgs]
+      cases moneyOf s.accts groups supi' rg with
+      | none => rfl
+      | some v => simp only [Option.map_some, Option.some.injEq]; omega
+    · simp only [hs, if_false]
+      have hne : supi ≠ supi' := fun h => hs h.symm
+      have : total (step guard s op).1 supi rg = total s supi rg :=
+        total_congr (by rw [ha]; exact f _ _ hne) (by rw [hgo _ hne])
+      rw [this]
+      cases total s supi rg with
+      | none => rfl
+      | some v => simp only [Option.map_some, Option.some.injEq]; omega
+  | none =>
+    have hr0 : accountedOp s op supi rg = 0 := by unfold accountedOp; simp [hc]
+    rw [hr0, C01_uncharged guard s op hc]
+    cases total s supi rg with
+    | none => rfl
+    | some v => simp only [Option.map_some, Option.some.injEq]; omega
+
+theorem accountedList_nonneg (a f : Bool) (tariffs : List Rating.Tariff) (supi : Bytes) (trigs : List Nat) (rg : Int)
+    (us : List Usage) : ∀ (accts : Abmf.Store) (groups : List (Int × RgState)),
+    0 ≤ accountedList a f tariffs supi trigs rg accts groups us := by
+  induction us with
+  | nil => intro _ _; simp [accountedList]
+  | cons u r ih =>
+    intro accts groups
+    simp only [accountedList]
+    have := ih (acctsNext a f tariffs supi trigs accts groups u)
+      (usageStep (seenEnv a f accts tariffs) supi trigs groups u).2.1
+    split <;> omega
+
+/-- No operation creates credit, whatever can be reached: balance + reservation never exceeds what it was plus
+    the money credited. -/
+theorem C01_outage_no_credit_created (guard : SplitGuard) (s : State) (op : Op) (hok : opOKx s op = true)
+    (supi : Bytes) (rg : Int) (hrg : int32 rg) (m m' : Int)
+    (h : total s supi rg = some m) (h' : total (step guard s op).1 supi rg = some m') :
+    m' ≤ m + creditedOp s op supi rg := by
+  rw [C01_outage_step guard s op hok supi rg hrg, h] at h'
+  simp only [Option.map_some, Option.some.injEq] at h'
+  have : 0 ≤ accountedOp s op supi rg := by
+    unfold accountedOp
+    split
+    · split
+      · exact accountedList_nonneg _ _ _ _ _ _ _ _ _
+      · omega
+    · omega
+  omega
+
+/-- a history: operations and changes of what can be reached -/
+inductive Ev
+  | op (o : Op)
+  | reach (abmfUp rfUp : Bool)
+
+def stepEv (guard : SplitGuard) (s : State) : Ev → State
+  | .op o => (step guard s o).1
+  | .reach a f => setReach s a f
+
+def runEv (guard : SplitGuard) (s : State) : List Ev → State
+  | [] => s
+  | e :: r => runEv guard (stepEv guard s e) r
+
+/-- products fit and every server that is reached knows the subscriber, along a history -/
+def runOKx (guard : SplitGuard) : State → List Ev → Bool
+  | _, [] => true
+  | s, .op o :: r => opOKx s o && runOKx guard (step guard s o).1 r
+  | s, .reach a f :: r => runOKx guard (setReach s a f) r
+
+/-- Σ credits − Σ booked along a history, for (supi, rg) -/
+def netRunX (guard : SplitGuard) (supi : Bytes) (rg : Int) : State → List Ev → Int
+  | _, [] => 0
+  | s, .op o :: r => creditedOp s o supi rg - accountedOp s o supi rg + netRunX guard supi rg (step guard s o).1 r
+  | s, .reach a f :: r => netRunX guard supi rg (setReach s a f) r
+
+/-- C01 across outages: after every history of operations and outages of either server (any length, any
+    interleaving), balance + held reservation = initial + credits − booked usage. -/
+theorem C01_outage (guard : SplitGuard) (supi : Bytes) (rg : Int) (hrg : int32 rg) (evs : List Ev) :
+    ∀ s : State, runOKx guard s evs = true →
+      total (runEv guard s evs) supi rg = (total s supi rg).map (fun m => m + netRunX guard supi rg s evs) := by
+  induction evs with
+  | nil =>
+    intro s _
+    simp only [runEv, netRunX, Int.add_zero]
+    cases total s supi rg <;> rfl
+  | cons e r ih =>
+    intro s hok
+    cases e with
+    | op o =>
+      simp only [runOKx, Bool.and_eq_true] at hok
+      simp only [runEv, stepEv, netRunX]
+      rw [ih _ hok.2, C01_outage_step guard s o hok.1 supi rg hrg]
+      cases total s supi rg with
+      | none => rfl
+      | some v => simp only [Option.map_some, Option.some.injEq]; omega
+    | reach a f =>
+      simp only [runOKx] at hok
+      simp only [runEv, stepEv, netRunX]
+      rw [ih _ hok]
+      rfl
+
+/-- with both servers reachable the booked money is the rated usage: `C01_outage_step` is then `C01_step` -/
+theorem C01_booked_eq_rated (s : State) (op : Op) (hup : s.abmfUp = true ∧ s.rfUp = true) (hok : opOKx s op = true)
+    (supi : Bytes) (rg : Int) : accountedOp s op supi rg = ratedOp s op supi rg := by
+  unfold accountedOp ratedOp
+  unfold opOKx at hok
+  cases hc : chargedUsages s op with
+  | none => rfl
+  | some x =>
+    obtain ⟨supi', trigs, groups, us⟩ := x
+    simp only [hc, hup.1, hup.2] at hok ⊢
+    split
+    · rename_i hs
+      subst hs
+      clear hc
+      generalize s.accts = accts at hok
+      induction us generalizing accts groups with
+      | nil => rfl
+      | cons u r ih =>
+        simp only [ccOKx, Bool.and_eq_true] at hok
+        simp only [accountedList, ratedList]
+        rw [ih (hok := hok.2)]
+        have := accountedUsage_up hok.1
+        simp only at this
+        rw [this]
+    · rfl
 
 end Chf.Props.C01
